@@ -4,7 +4,10 @@
     specification (Spec/Ps35.v); [write_dataset], [enc_prim_element], [enc_prim],
     [calc_byte_len] are the models of the dicom-rs code. *)
 From DicomV Require Import Base.Endian Model.Vr Model.Header Model.Prim Model.Dataset Model.Writer Spec.Ps35
-  Proofs.HeaderP Proofs.PrimP Proofs.WriterP Proofs.ValidP Proofs.FlatP Proofs.NestedP Proofs.ValidTreeP Proofs.CountP Proofs.NestedGP Proofs.ValidTreeGP.
+  Proofs.HeaderP Proofs.PrimP Proofs.WriterP Proofs.ValidP Proofs.FlatP Proofs.NestedP Proofs.ValidTreeP Proofs.CountP Proofs.NestedGP Proofs.ValidTreeGP
+  Model.File Proofs.FileP Gen.GenTsWrite.
+From Coq Require Import String.
+From DicomV Require Model.Meta Proofs.MetaP.
 Open Scope N_scope.
 
 (** Every byte count returned by [BasicEncode::encode_primitive] equals the
@@ -194,6 +197,115 @@ Example C04_nonvacuous :
   /\ ps35_valid ELE (fun _ => false) [8; 0; 64; 17; 83; 81; 0; 0; 255; 255; 255; 255; 254; 255; 0; 224; 255; 255; 255; 255; 254; 255; 13; 224; 0; 0; 0; 0; 254; 255; 221; 224; 0; 0; 0; 0] = true.
 Proof. vm_compute. repeat split. Qed.
 
+
+(** * Whole files ([FileDicomObject::write_all] / [write_to_file]; [write_meta] and
+    [write_dataset] are its two halves). [write_file] is the model (Model/File.v)
+    over the obj engineer's model of [FileMetaTable::write] (Model/Meta.v) and
+    the data set writer model; [reg] is the transfer syntax registry, [deflate]
+    the compressor of the data set adapter.
+    For an up-to-date ASCII meta table and ANY data set, a written file is
+    exactly  128 zero bytes ++ "DICM" ++ meta group ++ body  where
+    - the meta group is accepted by [ps35_valid] in Explicit VR LE,
+    - its group length field equals the number of bytes that follow the
+      12-byte group length element (C09_group_length of the obj engineer),
+    - the body is the data set written in the encoding [c] that the registry
+      gives for the table's Transfer Syntax UID (trailing padding ignored),
+      passed through [deflate] when the registry entry has a data set adapter,
+    - and that data set stream is accepted by [ps35_valid] in [c] whenever the
+      data set is well formed ([vable], as in C04_valid_nested). *)
+Theorem C04_file : forall reg deflate t obj f is_sq,
+  Meta.up_to_date t -> Meta.ascii_table t = true -> MetaP.small t ->
+  write_file reg deflate t false obj = Ok f ->
+  exists m ci kind c body,
+    Meta.write_meta t = Ok m /\
+    reg_get reg (Meta.trim_pad (Meta.m_ts t)) = Some (ci, kind) /\ kind <> 2 /\ enc_of_index ci = Some c /\
+    write_dataset c false false obj = Ok body /\
+    f = file_preamble ++ file_magic ++ m ++ (if kind =? 1 then deflate body else body) /\
+    List.length file_preamble = 128%nat /\ file_magic = ascii_bytes "DICM"%string /\
+    ps35_valid ELE (fun _ => false) m = true /\
+    Meta.m_glen t = Meta.blen (skipn 12 m) /\
+    (Forall (vable c is_sq) obj -> ps35_valid c is_sq body = true).
+Proof.
+  intros reg deflate t obj f is_sq Hu Ha Hs W.
+  destruct (write_file_shape reg deflate t false obj f W) as (m & ci & kind & c & body & Wm & Rg & K & Ec & Wd & Ef).
+  exists m, ci, kind, c, body. repeat split; try assumption; try reflexivity.
+  - exact (write_meta_valid _ t m Ha Hs Wm).
+  - apply MetaP.group_length_matches; assumption.
+  - intros V. exact (C04_valid_nested c is_sq obj body V Wd).
+Qed.
+
+(** The registry rows behind "the transfer syntax named by the meta group"
+    (Gen/GenTsWrite.v, regenerated from the real registry on every run; every
+    row is also exercised by a written file in the correspondence check):
+    the three uncompressed syntaxes of PS3.5 Annex A.1-A.3 are written in their
+    own encoding without adapter, Deflated Explicit VR LE (A.5) in Explicit VR
+    LE through an adapter; every other registered syntax is written in Explicit
+    VR LE (A.4) or refused. *)
+Definition uid_ile : list N := ascii_bytes "1.2.840.10008.1.2"%string.
+Definition uid_ele : list N := ascii_bytes "1.2.840.10008.1.2.1"%string.
+Definition uid_ebe : list N := ascii_bytes "1.2.840.10008.1.2.2"%string.
+Definition uid_deflated : list N := ascii_bytes "1.2.840.10008.1.2.1.99"%string.
+Definition annex_a_rows : list (list N * codec * bool) :=
+  [(uid_ile, ILE, false); (uid_ele, ELE, false); (uid_ebe, EBE, false); (uid_deflated, ELE, true)].
+Definition codec_index (c : codec) : N := match c with ILE => 0 | ELE => 1 | EBE => 2 end.
+
+Theorem C04_file_registry :
+  forallb (fun r : list N * codec * bool =>
+             match reg_get gen_ts_write (fst (fst r)) with
+             | Some (ci, kind) => (ci =? codec_index (snd (fst r))) && (kind =? if snd r then 1 else 0)
+             | None => false
+             end) annex_a_rows = true /\
+  forallb (fun r : list N * (N * N) =>
+             (if list_eqb N.eqb (fst r) uid_ile then fst (snd r) =? 0
+              else if list_eqb N.eqb (fst r) uid_ebe then fst (snd r) =? 2 else fst (snd r) =? 1)
+             && (snd (snd r) <? 3)) gen_ts_write = true.
+Proof. split; vm_cast_no_check (eq_refl true). Qed.
+
+(** The statement for the transfer syntaxes of Annex A.1-A.3 and A.5 with the real registry table. *)
+Theorem C04_file_annex_a : forall deflate t obj f is_sq uid c d,
+  In (uid, c, d) annex_a_rows -> Meta.trim_pad (Meta.m_ts t) = uid ->
+  Meta.up_to_date t -> Meta.ascii_table t = true -> MetaP.small t ->
+  write_file gen_ts_write deflate t false obj = Ok f ->
+  exists m body,
+    f = file_preamble ++ file_magic ++ m ++ (if d then deflate body else body) /\
+    Meta.write_meta t = Ok m /\ ps35_valid ELE (fun _ => false) m = true /\
+    Meta.m_glen t = Meta.blen (skipn 12 m) /\
+    write_dataset c false false obj = Ok body /\
+    (Forall (vable c is_sq) obj -> ps35_valid c is_sq body = true).
+Proof.
+  intros deflate t obj f is_sq uid c d Hin Hts Hu Ha Hs W.
+  destruct (C04_file gen_ts_write deflate t obj f is_sq Hu Ha Hs W)
+    as (m & ci & kind & c' & body & Wm & Rg & K & Ec & Wd & Ef & _ & _ & Vm & Gl & Vb).
+  rewrite Hts in Rg.
+  assert (X : ci = codec_index c /\ kind = if d then 1 else 0).
+  { pose proof (proj1 (forallb_forall _ _) (proj1 C04_file_registry) _ Hin) as R. cbn [fst snd] in R.
+    rewrite Rg in R. apply andb_prop in R. destruct R as [R1 R2].
+    apply N.eqb_eq in R1, R2. split; assumption. }
+  destruct X as [-> ->].
+  assert (c' = c) by (destruct c; cbn in Ec; inversion Ec; reflexivity). subst c'.
+  exists m, body. repeat split; try assumption.
+  rewrite Ef. destruct d; reflexivity.
+Qed.
+
+(** Non-vacuity: a table built by the builder's defaults and a nested data set; the file computed by the model. *)
+Example C04_file_nonvacuous :
+  let t := Meta.update_glen (Meta.mk_meta 0 (0, 1) [ascii_bytes "1.2.840.10008.5.1.4.1.1.7"%string ++ [0]; ascii_bytes "1.2.3.4"%string; uid_ebe ++ [0]; ascii_bytes "1.2.3.99"%string ]
+                               [Some (ascii_bytes "VERIF"%string ++ [32]); None; None; None; None] None) in
+  let obj := [EPrim (16, 16) PN 0 (PStrs [[68; 111; 101]]); ESeq (64, 629) SQ 0 [(0, [EPrim (8, 256) SH 0 (PStrs [[65]])])]] in
+  Meta.up_to_date t /\ Meta.ascii_table t = true /\ MetaP.small t /\ Meta.trim_pad (Meta.m_ts t) = uid_ebe /\
+  Forall (vable EBE (fun _ => false)) obj /\
+  match write_file gen_ts_write (fun b => b) t false obj with
+  | Ok f => List.length f = 324%nat /\ firstn 4 (skipn 128 f) = [68; 73; 67; 77]
+  | _ => False
+  end.
+Proof.
+  cbv zeta. split; [reflexivity|]. split; [vm_compute; reflexivity|]. split; [vm_compute; repeat split; reflexivity|].
+  split; [vm_compute; reflexivity|]. split.
+  - repeat constructor; unfold elem_ok, plain, wf_tag;
+      repeat (split || constructor); cbn; try reflexivity; try discriminate; try lia; try (intros; discriminate).
+  - vm_compute. split; reflexivity.
+Qed.
+
 Check C04_counts : forall c p, snd (enc_prim c p) = blen (fst (enc_prim c p)).
 Check C04_valid_nested_both : forall c is_sq nochange es b,
   Forall (vable_g c is_sq nochange) es ->
@@ -209,6 +321,31 @@ Check C04_element : forall c t v p b,
   b = ps35_header c t v (blen (ps35_padded v (raw_value c v p))) ++ ps35_padded v (raw_value c v p)
   /\ blen (ps35_padded v (raw_value c v p)) mod 2 = 0
   /\ (c <> ILE -> ps35_len16 v = true -> blen (ps35_padded v (raw_value c v p)) <= 65535).
+Check C04_file : forall reg deflate t obj f is_sq,
+  Meta.up_to_date t -> Meta.ascii_table t = true -> MetaP.small t ->
+  write_file reg deflate t false obj = Ok f ->
+  exists m ci kind c body,
+    Meta.write_meta t = Ok m /\
+    reg_get reg (Meta.trim_pad (Meta.m_ts t)) = Some (ci, kind) /\ kind <> 2 /\ enc_of_index ci = Some c /\
+    write_dataset c false false obj = Ok body /\
+    f = file_preamble ++ file_magic ++ m ++ (if kind =? 1 then deflate body else body) /\
+    List.length file_preamble = 128%nat /\ file_magic = ascii_bytes "DICM"%string /\
+    ps35_valid ELE (fun _ => false) m = true /\
+    Meta.m_glen t = Meta.blen (skipn 12 m) /\
+    (Forall (vable c is_sq) obj -> ps35_valid c is_sq body = true).
+Check C04_file_annex_a : forall deflate t obj f is_sq uid c d,
+  In (uid, c, d) annex_a_rows -> Meta.trim_pad (Meta.m_ts t) = uid ->
+  Meta.up_to_date t -> Meta.ascii_table t = true -> MetaP.small t ->
+  write_file gen_ts_write deflate t false obj = Ok f ->
+  exists m body,
+    f = file_preamble ++ file_magic ++ m ++ (if d then deflate body else body) /\
+    Meta.write_meta t = Ok m /\ ps35_valid ELE (fun _ => false) m = true /\
+    Meta.m_glen t = Meta.blen (skipn 12 m) /\
+    write_dataset c false false obj = Ok body /\
+    (Forall (vable c is_sq) obj -> ps35_valid c is_sq body = true).
+Print Assumptions C04_file.
+Print Assumptions C04_file_registry.
+Print Assumptions C04_file_annex_a.
 Print Assumptions C04_counts.
 Print Assumptions C04_byte_len.
 Print Assumptions C04_byte_len_refuted.
